@@ -245,7 +245,7 @@ def check(run):
     setup()
     rnd = run.rng
     quick = run.tier == 'quick'
-    numbers = [0, 1, -1, 0.5, -0.5, 2, 3, 7, 100, 0.1, 1.5, -2.5, 1e200, -1e200, 1e-200, 2.0 ** 53, 1e15, 123456.789, 1 / 3]
+    numbers = [0, -0.0, 1, -1, 0.5, -0.5, 2, 3, 7, 100, 0.1, 1.5, -2.5, 1e200, -1e200, 1e-200, 2.0 ** 53, 1e15, 123456.789, 1 / 3]
     texts = ['12', ' 12 ', '-3.5', '1e3', '1E-2', '+4', '.5', '5.', '007', '', ' ', 'abc', 'ABC', 'Abc', 'abd', '12a',
              '1,000', 'TRUE', 'true', '1 2', '--1', '0x10', 'e5', '1e', '$5', '50%', 'a', 'B', 'Z', 'z', '_']
     pytexts = ['1_0', 'inf', 'nan', '-Infinity', '１２', '1_000.5']
